@@ -13,7 +13,7 @@ CHECKS = {
     "C01": dict(
         engine="storewalk",
         technique="explicit-state search over every arrival order of every subset of every header blueprint (N nodes, |W| difficulty values), each transition a real Chains.Add on a SQLite store, oracle = reference tree model",
-        text="Exhaustive within the bound: every history of <=4 (quick) / <=5 (thorough) distinct headers over all tree shapes, orphan patterns, arrival orders and a 2-4 value difficulty alphabet incl. zero/negative targets; every visited store is checked (labels, tip, HTTP cross-read, re-submission, forbidden list) against the model. Histories beyond the bound and random generation are not covered.",
+        text="Exhaustive within the bound: every history of <=4 (quick) / <=5 (thorough) distinct headers over all tree shapes, orphan patterns, arrival orders and a 2-4 value difficulty alphabet incl. zero/negative targets; every visited store is checked (labels, tip, HTTP cross-read, re-submission, forbidden list) against the model; plus one directed reorganisation of 623 headers. Histories beyond the bound and random generation are not covered.",
         design="§3 C01",
     ),
     "C02": dict(
@@ -31,19 +31,19 @@ CHECKS = {
     "C04": dict(
         engine="storewalk",
         technique="explicit-state search over reachable header stores; in every store the complete argument product of every read route (all stored hashes + unknown/malformed, all height/count windows, all ordered ancestor pairs, all common-ancestor subsets of size <=3) is served by the production gin engine and compared with answers computed on the reference tree; table digest before/after",
-        text="Exhaustive within the bound (N<=4 quick, N=5 equal-work thorough). Where arrival-time links and hash links disagree (a parent stored after its child) both readings are accepted; where the statement defines no answer (no common ancestor) only C16 judges the status.",
+        text="Exhaustive within the bound (N<=4 quick, N=5 equal-work thorough). Other spellings (upper case, leading zeros stripped) of stored hashes must be refused or answered like the hash. Where arrival-time links and hash links disagree (a parent stored after its child) both readings are accepted; where the statement defines no answer (no common ancestor) only C16 judges the status.",
         design="§3 C04, §3a",
     ),
     "C08": dict(
         engine="storewalk",
         technique="explicit-state search over reachable header stores; in every store every (batch size 0..len+2) x (start key: empty, every stored root incl. stale/orphan, unknown) page and every complete multi-page walk is served by GET /chain/merkleroot and compared with the reference longest chain",
-        text="Exhaustive within the bound (N<=4 quick, N=5 thorough). Walks interleaved with ingestion are covered by decomposition: a page depends only on (store, key) and every (reachable store, stored root) pair is enumerated, including roots a reorganisation moved off the chain (409 expected).",
+        text="Exhaustive within the bound (N<=4 quick, N=5 thorough). Walks interleaved with ingestion are covered by decomposition: a page depends only on (store, key) and every (reachable store, stored root) pair is enumerated, including roots a reorganisation moved off the chain (409 expected); a directed reorganisation of 623 headers is walked completely as well.",
         design="§3 C08",
     ),
     "C13": dict(
         engine="storewalk",
         technique="explicit-state search over reachable header stores; in every store LatestHeaderLocator and every getheaders request (all locators of length 0-2 quick / 0-3 thorough over stored+unknown hashes, every stop) through LocateHeadersGetHeaders and LocateHeaders; plus three long stores (2005, 4100, 2100+stale branch) built by real Adds with locators/stops at the 2000-cap and step-pattern boundaries",
-        text="Exhaustive within the bound. An empty locator is accepted as either 'nothing' (the repository's own test pins an error) or the from-height-1 answer. The wire-level path (OnGetHeaders / handleGetHeadersMsg) is exercised by the netwalk engine, not here.",
+        text="Exhaustive within the bound. The answer returned for one request is re-read after the next request was served (it must not change). An empty locator is accepted as either 'nothing' (the repository's own test pins an error) or the from-height-1 answer. The wire-level path (OnGetHeaders / handleGetHeadersMsg) is exercised by the netwalk engine, not here.",
         design="§3 C13, §3a",
     ),
     "C05": dict(
@@ -61,13 +61,13 @@ CHECKS = {
     "C09": dict(
         engine="apiwalk",
         technique="complete product enumeration on the production gin engine: every route of Engine.Routes() (read at run time) x 14 credential classes (incl. a token used once and then revoked, SQL-wildcard and case variants of a valid token) x use_auth x debug_profiling x metrics; rejected requests are observed through a statement-recording SQL driver (only the token lookup may run) and table digests; routes outside /api/v1 are matched against the allowed set",
-        text="The space is finite and enumerated completely in both tiers (17 API routes x 14 classes x 8 configurations today; new routes are picked up from the routing table). Tokens in the classes come from a real create/revoke history on the SQL token repository.",
+        text="The space is finite and enumerated completely in both tiers (17 API routes x 14 classes x 8 configurations today; new routes are picked up from the routing table). Tokens in the classes come from a real create/revoke history on the SQL token repository; the admin token alternates between the default and one with the length and alphabet of issued tokens.",
         design="§3 C09",
     ),
     "C10": dict(
         engine="apiwalk",
         technique="exhaustive enumeration of operation sequences {create, revoke(each issued|unknown|admin|already revoked), restart} up to depth 5 (quick) / 7 (thorough) with <=3 issued tokens on the SQL token repository; after every step every known token, an unknown one and the admin token are probed on two HTTP routes and on the websocket connect handshake (real centrifuge node, real OnConnecting handler, in-memory transport), oracle = set model",
-        text="Exhaustive within the bound. Distinctness of generated tokens is only checked on the tokens observed. The websocket probe enters at the centrifuge connect command (the real handler), not at the HTTP upgrade.",
+        text="Exhaustive within the bound. Distinctness of generated tokens is only checked on the tokens observed. Histories alternate between two admin-token shapes (default; length and alphabet of issued tokens). The websocket probe enters at the centrifuge connect command (the real handler), not at the HTTP upgrade.",
         design="§3 C10",
     ),
     "C12": dict(
@@ -97,7 +97,7 @@ CHECKS = {
     "C20": dict(
         engine="domwalk", category="exploration",
         technique="complete enumeration: every leaf key of config.AppConfig (found by reflection at run time) x {no source, env, file, env+file, env+file swapped} resolved through SetDefaults + cli.LoadFlags(-C file) + Load with all other keys observed; complete product of database sections (4 engines x sqlite path x 2^4 postgres fields x prepared_db x prepared file state) through Validate",
-        text="The space is finite and enumerated completely in both tiers (34 keys x 5 source patterns; 768 database sections). Keys whose values are interpreted while loading (log level/format, engine, network) use valid alternatives.",
+        text="The space is finite and enumerated completely in both tiers (34 keys x 5 source patterns; 768 database sections). Free-form string keys also get a value full of shell/template/YAML special characters from both sources. Keys whose values are interpreted while loading (log level/format, engine, network) use valid alternatives.",
         design="§3 C20",
     ),
     "C06": dict(
@@ -124,14 +124,14 @@ CHECKS = {
     "C11": dict(
         engine="schedwalk",
         technique="stateless model checking under a controlled scheduler inside testing/synctest bubbles: threads = the submitter (one scheduling point per submission) and one delivery goroutine per (event, channel) spawned by the real notification.Notifier (one scheduling point at its start; quiescence = synctest.Wait); channels = the real WebhooksService over the SQL repository with a scripted client, the real websocket channel with a recording publisher that keeps the published slice like a broker does, a recording channel; per-channel behaviour {ok, error, never returns}; DFS by replay over all schedules with global-state memoisation (histories of length 1-2) / preemption bound 1 (length 3); oracle: per channel exactly one event per stored header with all nine fields equal to the stored header (and the published bytes unchanged at the end of the execution), none for duplicate / forbidden / failed submissions, the submitter finishes in every schedule",
-        text="Exhaustive: 30 histories x 27 behaviour combinations (all schedules) + 5 longer histories x 27 (bounded). A real centrifuge client subscription is not part of the check (the publisher seam is the node's Publish).",
+        text="Exhaustive: 30 histories x 27 behaviour combinations (all schedules) + 5 longer histories x 27 (bounded). Three 40-header histories with one channel never returning (one schedule each) guard against bounded delivery pools. A real centrifuge client subscription is not part of the check (the publisher seam is the node's Publish).",
         design="§3 C11",
         note="Trusted: testing/synctest quiescence; the scripted sinks. The insert failure is injected by a decorator on repository.Headers for one hash.",
     ),
     "C18": dict(
         engine="netwalk",
         technique="explicit-state search with replay inside testing/synctest bubbles: (a) BFS over {add(inbound|outbound|persistent, host1|host2), done, ban, clock advance ban/2 and ban} on a real peerState through the real handleAddPeerMsg / handleDonePeerMsg / handleBanPeerMsg (in-package driver), state = multiset of admitted (kind, host) + ban buckets, oracle = counting model at the production limits, plus a directed run to the total limit; (b) BFS over environment answers {dial success, dial refusal, disconnect(conn), remove(conn), retry timer} on the real connmgr.ConnManager with scripted GetNewAddress / Dial / OnConnection for targets 1, 2, 3, 8 (thorough 1..8) and two address policies, state key incl. the handler's private pending/conns maps and the implementation's ban table, invariant 'open connections <= target' in every state and the fair continuation (every dial succeeds) must reach exactly the target, plus the directed 26-refusals-of-one-address run",
-        text="Exhaustive to depth 8 (admission) / 9 (connection manager) in the quick tier, 10 / 11 thorough; state sets close by deduplication. addrmgr's address selection is not explored (GetNewAddress is scripted).",
+        text="Exhaustive to depth 8 (admission) / 9 (connection manager) in the quick tier, 10 / 11 thorough; state sets close by deduplication. Directed long outages (30 refusals / 30 retry intervals without any address) run for targets 1, 2, 3, 8 x three address policies. addrmgr's address selection is not explored (GetNewAddress is scripted).",
         design="§3 C18",
         note="Trusted: testing/synctest fake clock; peers built in-package as they look after a version exchange (no sockets).",
     ),
